@@ -359,14 +359,15 @@ func c03Case(c *vlib.Case, run *vlib.Run, env *pmmvEnv, cfg *pmmvConfig, mode st
 	if !s.layout() {
 		return s, "layout"
 	}
-	for _, mc := range env.maps {
-		pr, off := m.locate(mc.Frame)
+	for _, fr := range env.earlySeq() {
+		pr, off := m.locate(fr)
 		if pr == nil || pr.st[off] != pmmvFree {
 			run.Count("early_frame_not_in_free_ram", 1) // judged by C02; the accounting formulas below need E inside RAM \ K
 			return s, "early-frames-unusable"
 		}
 		m.set(pr, off, pmmvEarly)
 	}
+	run.Count("early_frames_taken_by_the_map_seam_for_page_tables", int64(len(env.pt)))
 	if len(env.maps) >= 2 {
 		run.Count("configs_with_2_or_more_early_frames", 1)
 	}
